@@ -28,7 +28,7 @@ def main():
     results = []
     for m in muts:
         if only and m['name'] != only: continue
-        edits = m.get('edits') or [{'file': m['file'], 'old': m['old'], 'new': m['new']}]
+        edits = m.get('edits') or [{'file': m['file'], 'old': m['old'], 'new': m['new'], 'count': m.get('count', 1)}]
         try:
             for e in edits:
                 sub('/repo/' + e['file'], e['old'], e['new'], e.get('count', 1))
